@@ -89,6 +89,29 @@ def alignment_failures(buf, what, sigbase):
     return ref, out
 
 
+def clause_large(cases, ctx: Ctx):
+    """case: {N, B, key}: batch_indices on a flattened buffer of N rows for N around the 16-bit boundaries: every index in range, none twice,
+    exactly floor(N/B)*B used, and gather(row) returns exactly those rows."""
+    out = []
+    for ci, c in enumerate(cases):
+        N, B = c["N"], c["B"]
+        z = jnp.zeros((N,))
+        tag = jnp.arange(N)
+        buf = RolloutBuffer(observations=tag, actions=jnp.zeros((N,), int), rewards=tag.astype(float), dones=jnp.zeros((N,), bool), log_probs=z, values=z,
+                            states=CounterState(tag), returns=z, advantages=z)
+        idx = np.asarray(buf.batch_indices(B, key=jr.key(c["key"])), dtype=np.int64)
+        nb = N // B
+        fl = idx.ravel()
+        ctx.guard("large-buffers")
+        if idx.shape != (nb, B) or fl.min() < 0 or fl.max() >= N or len(np.unique(fl)) != nb * B:
+            out.append((ci, "C09/large/indices", f"N={N} B={B}: batch_indices shape {idx.shape}, range [{fl.min()}, {fl.max()}], {len(np.unique(fl))} distinct of {nb * B} expected"))
+            continue
+        g = buf.gather(buf.batch_indices(B, key=jr.key(c["key"]))[0])
+        if not (np.array_equal(np.asarray(g.observations), idx[0]) and np.array_equal(np.asarray(g.states.c), idx[0]) and np.array_equal(np.rint(np.asarray(g.rewards)).astype(np.int64), idx[0])):
+            out.append((ci, "C09/large/gather", f"N={N} B={B}: gather(first index row) does not return those rows in every field"))
+    return out
+
+
 def clause_api(cases, ctx: Ctx):
     """case: {E, T, B, key (int or None)}"""
     out = []
@@ -251,7 +274,7 @@ def clause_train(cases, ctx: Ctx):
     return out
 
 
-CLAUSES = {"api": clause_api, "train": clause_train}
+CLAUSES = {"large": clause_large, "api": clause_api, "train": clause_train}
 
 
 def explore(ctx: Ctx):
@@ -275,6 +298,8 @@ def explore(ctx: Ctx):
                 if N % B or N // B > 1:
                     ctx.nontriv(("api", E, T, B, k))
     ctx.run("api", api)
+    # sizes around the 8-, 15- and 16-bit boundaries (an index table narrowed to a small integer type)
+    ctx.run("large", [dict(N=N, B=B, key=keys[0]) for (N, B) in ((300, 7), (33000, 1000), (40000, 999), (65535, 4096), (70000, 1000))])
     train = []
     for E, T in itertools.product((1, 2, 3), (2, 3, 4) if not thorough else (2, 3, 4, 5)):
         for nb in (1, 2, 3) if not thorough else (1, 2, 3, 4):
